@@ -178,6 +178,11 @@ pub struct CertSpec {
     /// evaluation time used when this certificate is validated, milliseconds
     pub eval_ms: i64,
     pub serial: u64,
+    /// how a foreign implementation would have written the same certificate
+    /// (extension order, extra non-critical extensions, optional parts), applied
+    /// to the DER the library builder produced and signed again by the issuer
+    #[serde(default)]
+    pub dress: crate::der::Dress,
 }
 
 impl CertSpec {
@@ -502,7 +507,11 @@ fn build_der(c: &Chain, i: usize, ov: &Overrides) -> Result<Vec<u8>, Fail> {
     let cert = tbs
         .into_cert(&signer, &signer.key(sign_with))
         .map_err(|e| Fail::new(format!("signing failed: {}", e)))?;
-    Ok(cert.to_captured().into_bytes().to_vec())
+    let der = cert.to_captured().into_bytes().to_vec();
+    if spec.dress.is_plain() {
+        return Ok(der);
+    }
+    crate::der::dress_cert(&der, sign_with, &spec.dress).map_err(|e| Fail::new(format!("harness: dressing failed: {}", e)))
 }
 
 //------------ validating through the library -----------------------------------------
@@ -750,6 +759,9 @@ fn step(
             Ok(Some((rc, m)))
         }
         (Err(_), Outcome::Rejected(_)) => Ok(None),
+        // A certificate in foreign dress that the library turns down is outside the
+        // statement ("succeeds only if"): counted, never a violation.
+        (Ok(_), Outcome::Rejected(e)) if !spec.dress.is_plain() => Err(Fail::sig(DRESSED_REJECTED, e)),
         (Ok(_), Outcome::Rejected(e)) => Err(Fail::sig(
             "c01:rejects-valid",
             format!("{} (cert {} as {:?}): the model accepts, the library rejects: {}", what, i, kind, e),
@@ -792,10 +804,25 @@ impl Labels {
     }
 }
 
+const DRESSED_REJECTED: &str = "c01:internal:dressed-rejected";
+
+/// Turns the internal "library rejected a certificate in foreign dress that the model
+/// accepts" outcome into a counted, passing case.
+fn dressed_ok(res: CheckResult, label: &mut dyn FnMut(&'static str)) -> CheckResult {
+    match res {
+        Err(f) if f.sig == DRESSED_REJECTED => {
+            label("dressed-rejected-by-library");
+            Ok(())
+        }
+        other => other,
+    }
+}
+
 fn run_chain(c: &Chain, real_obs: &mut Obs) -> CheckResult {
     let mut labels = Labels::default();
     let mut nontrivial = false;
     let res = run_chain_inner(c, &mut labels, &mut nontrivial);
+    let res = dressed_ok(res, &mut |l| labels.label(l));
     for l in labels.0 {
         real_obs.label(l);
     }
@@ -855,6 +882,17 @@ fn run_chain_inner(c: &Chain, obs: &mut Labels, nontrivial_out: &mut bool) -> Ch
         obs.label(if spec.in_window(spec.eval_ms) { "in-window" } else { "out-of-window" });
         obs.label_if(ms == lo || ms == hi, "time-on-edge");
         obs.label_if((ms - lo).abs() == 1 || (ms - hi).abs() == 1, "time-1ms-off-edge");
+        if !spec.dress.is_plain() {
+            let d = &spec.dress;
+            obs.label("dressed");
+            nontrivial = true;
+            obs.label_if(d.perm != 0, "dress-ext-order");
+            obs.label_if(!d.unknown.is_empty(), "dress-unknown-ext");
+            obs.label_if(d.cps || d.crldp_https != 0, "dress-policy-crldp");
+            obs.label_if(d.sia != 0, "dress-sia");
+            obs.label_if(d.as_id_as_range != 0, "dress-as-range");
+            obs.label_if(d.no_null, "dress-no-null");
+        }
         let der = build_der(c, i, &Overrides::default())?;
         let issuer = match &state {
             Some((Some(rc), m)) => Some((&**rc, m)),
@@ -876,6 +914,7 @@ fn run_chain_inner(c: &Chain, obs: &mut Labels, nontrivial_out: &mut bool) -> Ch
         }
     }
     obs.label(if accepted { "accepted" } else { "rejected" });
+    obs.label_if(accepted && c.certs.iter().any(|s| !s.dress.is_plain()), "accepted-dressed");
     *nontrivial_out = nontrivial;
     Ok(())
 }
@@ -1002,6 +1041,11 @@ const TAMPER_KINDS: [&str; 9] = [
 ];
 
 fn run_tamper(tc: &TamperCase, obs: &mut Obs) -> CheckResult {
+    let res = run_tamper_inner(tc, obs);
+    dressed_ok(res, &mut |l| obs.label(l))
+}
+
+fn run_tamper_inner(tc: &TamperCase, obs: &mut Obs) -> CheckResult {
     let c = &tc.chain;
     let t = tc.t;
     ensure!(c.certs.len() >= 2 && c.certs.len() <= 4, "malformed case: {} certificates", c.certs.len());
@@ -1037,6 +1081,7 @@ fn run_tamper(tc: &TamperCase, obs: &mut Obs) -> CheckResult {
         ders.push(der);
     }
     let spec = &c.certs[idx];
+    obs.label_if(!spec.dress.is_plain(), "tamper-dressed");
     let kind = c.kind(idx);
     let issuer_state = if idx > 0 { Some(&states[idx - 1]) } else { None };
     let issuer = issuer_state.map(|(rc, m)| (&**rc.as_ref().expect("issuer is a CA"), m));
@@ -1264,6 +1309,8 @@ struct CertR {
     eval_c: u16,
     eval_r: u32,
     serial: u64,
+    dress_c: u16,
+    dress_r: u64,
 }
 
 #[derive(Clone, Debug)]
@@ -1294,8 +1341,9 @@ fn cert_r() -> BoxedStrategy<CertR> {
         any::<u16>(),
         any::<u32>(),
         prop_oneof![Just(0u64), Just(1u64), any::<u64>()],
+        (any::<u16>(), any::<u64>()),
     )
-        .prop_map(|(trim, (a, b, c), base_c, base_r, len_c, len_r, eval_c, eval_r, serial)| CertR {
+        .prop_map(|(trim, (a, b, c), base_c, base_r, len_c, len_r, eval_c, eval_r, serial, (dress_c, dress_r))| CertR {
             trim,
             fam: [a, b, c],
             base_c,
@@ -1305,8 +1353,38 @@ fn cert_r() -> BoxedStrategy<CertR> {
             eval_c,
             eval_r,
             serial,
+            dress_c,
+            dress_r,
         })
         .boxed()
+}
+
+/// The foreign dress of a certificate from two raw values (monotone in the
+/// class, so shrinking moves towards the plain library encoding).
+fn make_dress(class: u16, r: u64) -> crate::der::Dress {
+    use crate::der::Dress;
+    const SIZES: [u16; 10] = [0, 1, 5, 100, 117, 118, 119, 245, 246, 300];
+    let unknown = |r: u64, n: usize| -> Vec<(u8, u16)> {
+        (0..n).map(|i| ((r >> (8 * i)) as u8, SIZES[((r >> (32 + 4 * i)) & 15) as usize % SIZES.len()])).collect()
+    };
+    match weighted(class, &[45, 12, 8, 5, 5, 5, 5, 15]) {
+        0 => Dress::default(),
+        1 => Dress { perm: 1 + (r % 64) as u32, ..Dress::default() },
+        2 => Dress { unknown: unknown(r, 1 + (r >> 60) as usize % 3), ..Dress::default() },
+        3 => Dress { cps: true, crldp_https: (r % 4) as u8, ..Dress::default() },
+        4 => Dress { sia: 1 + (r % 15) as u8, ..Dress::default() },
+        5 => Dress { as_id_as_range: (r as u32) | 1, ..Dress::default() },
+        6 => Dress { no_null: true, perm: (r % 3) as u32, ..Dress::default() },
+        _ => Dress {
+            perm: (r % 97) as u32,
+            unknown: unknown(r >> 7, (r >> 3) as usize % 3),
+            cps: r >> 5 & 1 == 1,
+            crldp_https: (r >> 9) as u8 % 4,
+            sia: (r >> 11) as u8 % 16,
+            as_id_as_range: if r >> 15 & 1 == 1 { (r >> 16) as u32 } else { 0 },
+            no_null: r >> 6 & 3 == 0,
+        },
+    }
 }
 
 fn chain_r() -> BoxedStrategy<ChainR> {
@@ -1494,6 +1572,7 @@ fn make_chain(r: &ChainR, accept_only: bool) -> Chain {
             na: 0,
             eval_ms: 0,
             serial: cr.serial,
+            dress: make_dress(cr.dress_c, cr.dress_r),
         };
         // resources
         for (k, f) in FAMS.into_iter().enumerate() {
@@ -1658,6 +1737,12 @@ pub fn property() -> Property {
                     ("time-1ms-off-edge", 0.15),
                     ("leaf-router", 0.1),
                     ("depth-2", 0.15),
+                    ("dressed", 0.4),
+                    ("accepted-dressed", 0.1),
+                    ("dress-ext-order", 0.2),
+                    ("dress-unknown-ext", 0.15),
+                    ("dress-sia", 0.15),
+                    ("dress-as-range", 0.1),
                 ],
             }
             .boxed(),
@@ -1678,6 +1763,7 @@ pub fn property() -> Property {
                     ("tamper-window-inverted", 0.04),
                     ("tamper-block-trim", 0.03),
                     ("tamper-block-refuse", 0.03),
+                    ("tamper-dressed", 0.3),
                 ],
             }
             .boxed(),
